@@ -614,6 +614,12 @@ let curve_cmd cmd t seq =
   | "cinv" ->
     let fr = num t in let _gf = num t in
     (match !cur_curve, impl_get seq "cinv" with
+     | Some s, Some [xi] when not (Float.is_finite xi) ->
+       (* no pre-image reported: a violation when y is attained by a segment or by the linear extrapolation *)
+       let y = s.sy0 +. fr *. (s.sy1 -. s.sy0) in
+       let in_seg = List.exists (fun p -> (y -. p.p0) *. (p.p5 -. y) >= 0.) s.sY in
+       let right = abs_float s.sd1 > 1e-9 && (y -. s.sy1) /. s.sd1 >= 0. and left = abs_float s.sd0 > 1e-9 && (y -. s.sy0) /. s.sd0 <= 0. in
+       if in_seg || right || left then line "c" seq "cinv_preimage" (fun () -> od 1.; od 0.)
      | Some s, Some [xi] when Float.is_finite xi ->
        let y = s.sy0 +. fr *. (s.sy1 -. s.sy0) in
        (match value s xi with
